@@ -217,6 +217,66 @@ Proof.
   exact (fun b c d Hne Hd => eq_trans (topic_hint_spec _ d Hd) (tuple_hint_hetero b c Hne)).
 Qed.
 
+(* ---- how the hint is written ------------------------------------------ *)
+
+(* Vocabulary: a tunable is written  x [: ann] = tunable[orig](default).
+   [mksrc orig ann] is that class-body line: [orig] the subscript (if any),
+   [ann] what the class body left in __annotations__ -- the evaluated object
+   (RObj), a str with the source text (RStr: every annotation of a module with
+   `from __future__ import annotations`, or a hint in quotes) or an object with
+   a quoted argument (RFwd).  [spell sp H] writes the hint H in spelling sp:
+   tunable[H](..), or an annotation H / tunable[H] / ClassVar[H] /
+   ClassVar[tunable[H]], each as object, as string or with a forward
+   reference.  [decl_topic_src] is the class statement from that line. *)
+
+(* every accepted spelling of H makes __set_name__ resolve the topic type from
+   H itself; [all_spellings] lists them all *)
+Theorem C09_hint_spelling : forall sp h,
+  In sp all_spellings /\ set_name_hint (spell sp h) = Some h.
+Proof. exact (fun sp h => conj (all_spellings_complete sp) (spelled_hint sp h)). Qed.
+
+(* for every class-body line: the subscript decides if present, else the H
+   inside the evaluated annotation, else there is no hint *)
+Theorem C09_hint_resolution : forall o r,
+  set_name_hint (mksrc o r) =
+  match o with
+  | Some h => Some h
+  | None => option_map (fun x => written_hint (get_type_hints x)) r
+  end.
+Proof. exact set_name_hint_char. Qed.
+
+(* a postponed / quoted annotation (and one with a quoted argument) yields
+   the same topic type, or the same rejection, as the evaluated annotation *)
+Theorem C09_postponed_annotation : forall d o a,
+  decl_topic_src d (mksrc o (Some (RStr a))) = decl_topic_src d (mksrc o (Some (RObj a))) /\
+  decl_topic_src d (mksrc o (Some (RFwd a))) = decl_topic_src d (mksrc o (Some (RObj a))).
+Proof. exact postponed_annotation_same. Qed.
+
+(* C09_topic_type from the source: for EVERY default, every hint (or none) and
+   every spelling the class statement yields the documented table *)
+Theorem C09_topic_type_spelled : forall d sp h,
+  res_to_option (decl_topic_src d (spell_opt sp h)) = spec_decl d h.
+Proof. exact decl_topic_src_spec. Qed.
+
+(* type-hinted empty sequences, in any spelling *)
+Theorem C09_hinted_empty_sequence : forall sp b t, spec_array b = Some t ->
+  decl_topic_src (VList []) (spell sp (TGen OList [ABase b])) = Ok t /\
+  decl_topic_src (VList []) (spell sp (TGen OSeq [ABase b])) = Ok t /\
+  decl_topic_src (VTuple []) (spell sp (TGen OSeq [ABase b])) = Ok t /\
+  decl_topic_src (VTuple []) (spell sp (TGen OTuple [ABase b; AEllipsis])) = Ok t.
+Proof. exact hinted_empty_sequence. Qed.
+
+(* ... and through setup: a tunable whose hint is written in any spelling is
+   bound at the documented key with the documented type of (default, hint) *)
+Theorem C09_setup_binds_spelled : forall w i cls p c d sp h,
+  NoDup (map d_attr cls) -> In d cls -> public d = true ->
+  d_hint d = set_name_hint (spell_opt sp h) ->
+  snd (step w (Setup i cls p c)) = EvSetup true ->
+  exists b ty, inst_get (w_inst (fst (step w (Setup i cls p c)))) i = Some b /\
+    spec_decl (d_default d) h = Some ty /\
+    bind_get b (d_attr d) = Some (key_of p c (d_subtable d) (d_attr d), ty, canon (d_default d)).
+Proof. exact setup_binds_spelled. Qed.
+
 (* ---- non-vacuity ----------------------------------------------------- *)
 
 Definition ex_cls : list decl :=
@@ -284,6 +344,30 @@ Example C09_nv_grid :
   spec_decl (VList [SInt 3]) (Some (TGen OTuple [ABase BInt; ABase BStr])) = None.
 Proof. vm_compute. intuition. Qed.
 
+(* spellings: 13 of them; a module with `from __future__ import annotations`
+   declaring  gains: list[float] = tunable([])  and
+   flags: ClassVar[tunable[List[bool]]] = tunable(())  is definable, set up under
+   component "intake" both are bound with double[] / boolean[] at the documented
+   keys; a heterogeneous tuple hint stays rejected when it is a string *)
+Definition ex_postponed : list decl :=
+  [ mkdecl "flags" (VTuple [])
+      (set_name_hint (mksrc None (Some (RStr (AClassVar (ITunable (TGen OList [ABase BBool])))))))
+      None true;
+    mkdecl "gains" (VList [])
+      (set_name_hint (spell (SpAnn QStr false false) (TGen OList [ABase BFloat])))
+      (Some "cfg") true ].
+Example C09_nv_spelling :
+  N.of_nat (length all_spellings) = 13%N /\
+  snd (run w0 [Setup 0 ex_postponed (Some "components") "intake";
+               NtRead "/components/intake/cfg/gains"; NtRead "/components/intake/flags";
+               PyWrite 0 "gains" (VList [SFloat 16]); PyRead 0 "gains"]) =
+  [ EvSetup true; EvNt (Some (NDoubleArr, VList [])); EvNt (Some (NBooleanArr, VList []));
+    EvWrote; EvVal (VList [SFloat 16]) ] /\
+  decl_topic_src (VList []) (spell (SpAnn QStr false false) (TGen OTuple [ABase BInt; ABase BStr]))
+    = RaiseTypeError /\
+  decl_topic_src (VList []) (mksrc None None) = RaiseValueError.
+Proof. vm_compute. intuition. Qed.
+
 Print Assumptions C09_key.
 Print Assumptions C09_setup_binds_key.
 Print Assumptions C09_attr_write_reaches_topic.
@@ -306,3 +390,9 @@ Print Assumptions C09_empty_untyped_unsupported.
 Print Assumptions C09_topic_hint.
 Print Assumptions C09_tuple_hint.
 Print Assumptions C09_hetero_tuple_unsupported.
+Print Assumptions C09_hint_spelling.
+Print Assumptions C09_hint_resolution.
+Print Assumptions C09_postponed_annotation.
+Print Assumptions C09_topic_type_spelled.
+Print Assumptions C09_hinted_empty_sequence.
+Print Assumptions C09_setup_binds_spelled.
